@@ -800,6 +800,66 @@ def m_itemgetter(I, *keys):
     return operator.itemgetter(*keys)
 
 
+def reconstruct(I, x, deep=False):
+    """assumed contract of copy.copy / copy.deepcopy / pickle for instances of the repo's str subclasses
+    (object.__reduce_ex__(2)): cls.__new__(cls, *newargs) with newargs = x.__getnewargs__() if the class defines it
+    else (str(x),); then the instance __dict__ is copied onto the new object (deep: values deep-copied)"""
+    cls = x.cls
+    k, g = I.lookup_cls(cls, "__getnewargs__")
+    if g is not None and I.is_repo_cls(k):
+        newargs = I.call(I.getattr(x, "__getnewargs__"), [], {})
+    else:
+        newargs = (payload(x),) if x.payload is not None else ()
+    k_new, v_new = I.lookup_cls(cls, "__new__")
+    if k_new is not None and I.is_repo_cls(k_new):
+        newfn = v_new.__func__ if isinstance(v_new, staticmethod) else v_new
+        r = I.call_function(newfn, [cls] + list(newargs), {}, defcls=k_new)
+    else:
+        r = SObj(cls, payload(x) if x.payload is not None else None)
+        I.keep.append(r)
+    for (oid, name), val in list(I.heap.items()):
+        if oid == id(x):
+            I.heap[(id(r), name)] = m_deepcopy(I, val) if deep else val
+    return r
+
+
+def m_copy(I, x):
+    import copy as _copy
+    if isinstance(x, SObj):
+        k, f = I.lookup_cls(x.cls, "__copy__")
+        if f is not None and I.is_repo_cls(k):
+            return I.call(I.getattr(x, "__copy__"), [], {})
+        return reconstruct(I, x)
+    if is_sym(x):
+        return x
+    r = _copy.copy(x)
+    if isinstance(r, (list, dict, set)):
+        I.alloc(r)
+    return r
+
+
+def m_deepcopy(I, x, memo=None):
+    import copy as _copy
+    if isinstance(x, SObj):
+        k, f = I.lookup_cls(x.cls, "__deepcopy__")
+        if f is not None and I.is_repo_cls(k):
+            return I.call(I.getattr(x, "__deepcopy__"), [memo if memo is not None else {}], {})
+        return reconstruct(I, x, deep=True)
+    if is_sym(x):
+        return x
+    if deep_sym(x):
+        if isinstance(x, dict):
+            return I.alloc({k: m_deepcopy(I, v) for k, v in x.items()})
+        if isinstance(x, (list, tuple)):
+            r = type(x)(m_deepcopy(I, v) for v in x)
+            return I.alloc(r) if isinstance(r, list) else r
+    r = _copy.deepcopy(x)
+    if isinstance(r, (list, dict, set)):
+        I.alloc(r)
+    return r
+
+
+import copy as _copy_mod  # noqa: E402
 import typing  # noqa: E402
 
 BUILTIN_MODELS = {
@@ -809,5 +869,5 @@ BUILTIN_MODELS = {
     sorted: m_sorted, list: m_list, tuple: m_tuple, dict: m_dict, set: m_set, frozenset: m_frozenset,
     itertools.chain: m_chain, itertools.chain.from_iterable: m_chain_from_iterable, getattr: m_getattr,
     hasattr: m_hasattr, typing.cast: m_cast, type: m_type, hash: m_hash, repr: m_repr, divmod: m_divmod,
-    re.match: m_re_match, re.fullmatch: m_re_fullmatch,
+    re.match: m_re_match, re.fullmatch: m_re_fullmatch, _copy_mod.copy: m_copy, _copy_mod.deepcopy: m_deepcopy,
 }
